@@ -74,6 +74,43 @@ Fixpoint first_diff (a b : list obs) (i : nat) : option nat :=
 Definition spec_first_diff (c : case) : option nat :=
   first_diff (map (fun lx => (snd lx, length (fst lx), fst lx)) (spec_trace N.eqb 0%N [] (c_ops c))) (c_obs c) 0.
 
+(* ---- the same comparison through a digest of the observations: long list
+   literals are slow to elaborate in Coq, so checks/c12.py sends the operations
+   and ONE number per history (the digest of everything the real table showed:
+   every output, len and the items after every operation, flattened) and Coq
+   compares it with the digest of the model's / the specification's trace. ---- *)
+Definition flat_out (o : out N N) : list N :=
+  match o with
+  | ONone => [0%N]
+  | OVal None => [1%N]
+  | OVal (Some v) => [2%N; v]
+  | OKV None => [3%N]
+  | OKV (Some (k, v)) => [4%N; k; v]
+  end.
+Definition flat_obs (x : obs) : list N :=
+  flat_out (fst (fst x)) ++ [N.of_nat (snd (fst x)); N.of_nat (length (snd x))]
+  ++ flat_map (fun kv => [fst kv; snd kv]) (snd x).
+Definition digest (l : list N) : N :=
+  fold_left (fun acc x => ((acc * 1000003 + x + 1) mod 2305843009213693951)%N) l 7%N.
+Definition trace_digest (t : list obs) : N := digest (flat_map flat_obs t).
+
+Record dcase := mkD {
+  d_hashes : list (N * N);
+  d_init : option nat;
+  d_ops : list (op N N);
+  d_expect : N                   (* digest of what the implementation showed *)
+}.
+Definition dstart (c : dcase) : res (@state N N) :=
+  match d_init c with None => Ok zero_state | Some n => init n end.
+Definition model_ok_d (c : dcase) : bool :=
+  match dstart c >>= fun s => trace N.eqb (hfun (d_hashes c)) 0%N s (d_ops c) with
+  | Ok t => N.eqb (trace_digest t) (d_expect c)
+  | _ => false
+  end.
+Definition spec_ok_d (c : dcase) : bool :=
+  N.eqb (trace_digest (map (fun lx => (snd lx, length (fst lx), fst lx)) (spec_trace N.eqb 0%N [] (d_ops c))))
+        (d_expect c).
+
 (* coverage of the model run (never compared): longest chain in buckets, table size *)
 Definition model_shape (c : case) : option (nat * nat) :=
   match start c >>= fun s => run N.eqb (hfun (c_hashes c)) 0%N s (c_ops c) with
